@@ -105,6 +105,19 @@ Theorem C05_no_mask_key_all_real :
   (forall (rows : list (list NanQ.t)), real_examples [(None, rows)] = rows).
 Proof. exact no_mask_key_all_real. Qed.
 
+(* PerDomainMetric (per_domain_example is PerDomainMetric.evaluate_example, translated): merging the wrapper's
+   statistics of a set of examples = for every domain d, merging the BASE statistics of the examples of domain d
+   (blocks in domain order).  With C05_batch_is_fold_of_examples: evaluate_model of the wrapper is the base metric
+   evaluated per domain, for any batching *)
+Theorem C05_per_domain_definition :
+  (forall Dn K rows, Forall (fun r => vecD (D := Dmean) K (snd r)) rows ->
+     Forall2 stat_eq (merge_examples mean_alg (Dn * K) (map (pd_row mean_alg Dn K) rows))
+                     (concat (map (fun d => merge_examples mean_alg K (domain_rows d rows)) (seq 0 Dn)))) /\
+  (forall Dn K rows, Forall (fun r => vecD (D := NanQ.finite) K (snd r)) rows ->
+     Forall2 NanQ.eq (merge_examples sum_alg (Dn * K) (map (pd_row sum_alg Dn K) rows))
+                     (concat (map (fun d => merge_examples sum_alg K (domain_rows d rows)) (seq 0 Dn)))).
+Proof. exact per_domain_definition. Qed.
+
 (* zero() of every built-in metric class is the identity of its Stat type (mean_metric_zero is
    CrossEntropyLoss.zero, sum_metric_zero is SequenceTokenCount.zero; ConfusionMatrix / PerDomainMetric
    zeros are arrays / broadcasts of these, checked structurally by the anchor) *)
@@ -135,6 +148,8 @@ Example C05_example :
   C05_agree (CSum ApiBatch 1 [(None, [[Some 2]; [Some 3]])]) (mkO05 0 [Some 5] (Some [Some 5])) = true /\
   C05_agree (CNew (Some 5) (Some (-1))) (mkO05 0 [] (Some [Some 0; Some 0])) = true /\
   C05_agree (CMean ApiModel 1 [(Some [true], [[(Some 1, Some 1)]])]) (mkO05 0 [Some 0] None) = false /\
+  C05_agree (CMeanPD 2 1 [(1%nat, [(Some 1, Some 1)]); (0%nat, [(Some 0, Some 1)]); (1%nat, [(Some 0, Some 1)])])
+    (mkO05 0 [Some 0; Some (1 # 2)] None) = true /\
   Dmean (qlift (1, 1)) /\ qD (0, 0).
 Proof.
   vm_compute. repeat split; try (left; split; reflexivity).
@@ -150,5 +165,6 @@ Print Assumptions C05_evaluate_batch_is_fold.
 Print Assumptions C05_empty_is_zero_not_nan.
 Print Assumptions C05_evaluator_is_evaluate_model.
 Print Assumptions C05_no_mask_key_all_real.
+Print Assumptions C05_per_domain_definition.
 Print Assumptions C05_builtin_zeros.
 Print Assumptions C05_result_on_domain.
